@@ -4,6 +4,7 @@ from .core import MissingAnchor
 from .rules import solver_rules as S
 from .rules import dd_rules as D
 from .rules import store_rules as T
+from .rules import gap_rules as GR
 
 COMMON_ASSUME = [
     'rustc MIR construction, name resolution and the fact extractor (engine/factsdrv) are trusted',
@@ -43,6 +44,7 @@ RULE_FUNCS = [
     (D.r_reset, ['R06.3', 'R02.5']),
     (D.r_flags, ['R06.4']),
     (D.r_pooled_layers, ['R15.1', 'R15.2', 'R15.3']),
+    (GR.r_gap, ['R17']),
     (T.r_partial_cmp, ['R10.1']),
     (T.r_dom_cmp, ['R10.2']),
     (T.r_dom_store, ['R10.3', 'R10.4', 'R10.5', 'R18.a', 'R18.c']),
@@ -105,6 +107,10 @@ PROPS = {
     'C13': dict(fn=mk(['R13.']), explanation='squash executed on every expanded layer vector; symbolic length <= max_width at every exit of _restrict/_relax; width guards'),
     'C14': dict(fn=mk(['R14.', 'R01.1', 'R01.4', 'R01.6', 'R09.4', 'R02.1'], lambda r: r['rule'] != 'R02.1' or 'improve-only' in r['instance']), explanation='set_primal strictness table, both fields under one guard; no prune site (pop, enqueue, rough bound, cache filter) discards a node with ub > best_lb; incumbent replaced only on improvement'),
     'C15': dict(fn=mk(['R15.', 'R08.3', 'R12.d', 'R12.f']), explanation='Pooled: un-impacted nodes are neither expanded nor removed from the pool; depth assigned when a node leaves the pool and at finalisation; a layer is recorded only when non-empty; progress rule (root never handed out) shared with C08'),
+    'C17': dict(fn=mk(['R17']), level='proof', explanation='abstract interpretation of the MIR of Solver::gap over a partition of all (lb <= ub) into sign/order cells; in each cell every comparison between the symbolic expressions (|lb|, |ub|, max, min, |ub-lb|) is decided, so all feasible paths are followed; obligations per cell: not NaN / no panic, >= 0, = 1 when a bound is infinite, = 0 iff lb = ub, <= 1 when the bounds have the same sign',
+                obligations=lambda results: len(results), checker_cmd='./check C17 quick',
+                trusted_base=['rustc MIR construction', 'engine/factsdrv', 'absint_gap.py transfer functions (int->float conversion is monotone, exact at 0 and keeps positive values positive and finite; x/y with 1 <= x, y <= 2^64 does not underflow; IEEE division)'],
+                technique='abstract interpretation (sign/order-cell domain) of the MIR of Solver::gap', level_text='Proof by abstract interpretation: every obligation of the property statement is discharged in every input cell (the cells cover all pairs lb <= ub); no clause of the statement is left undecided.'),
     'C18': dict(fn=mk(['R18.', 'R10.1', 'R10.3', 'R10.4', 'R10.5']), explanation='one DashMap::entry call per read-modify-write (no second accessor), update = Ord::max(new, old), Threshold field order and derives, per-layer indexing, clear/clear_layer/initialize, dominance tables'),
     'C19': dict(fn=mk(['R19.', 'R02.1', 'R14.1'], lambda r: r['rule'].startswith('R19') or 'improve-only' in r['instance'] or '/strict' in r['instance']), explanation='best_ub := popped ub, child bound = min(parent, child), incumbent improve-only, Complete sets best_ub := best_lb'),
 }
